@@ -1208,7 +1208,82 @@ def contract_sums(case):
     return ("ok", True)
 
 
+# ================================================================================================ read-only calls leave lnL alone
+RO_CALLS = ["get_statistics", "get_param_rules", "get_motif_probs", "get_lengths_as_ens", "get_annotated_tree", "to_rich_dict",
+            "get_full_length_likelihoods", "get_bin_probs", "reconstruct_ancestral_seqs", "likely_ancestral_seqs",
+            "get_rate_matrix_for_edge", "get_psub_for_edge", "get_all_psubs", "get_all_rate_matrices", "get_num_free_params",
+            "get_log_likelihood", "get_aic", "get_bic", "get_ens"]
+
+
+def gen_readonly(tier, seed):
+    for model in ("HKY85", "GN", "HKY85+bins"):
+        for loci in (1, 2):
+            for call in RO_CALLS:
+                yield [model, loci, call]
+
+
+def contract_readonly(case):
+    """a read-only call -- whether it succeeds or raises (e.g. for want of a locus argument on a multi-locus function) --
+    leaves the reported log-likelihood where it was"""
+    import warnings
+    warnings.filterwarnings("ignore")
+    from cogent3 import get_model, make_aligned_seqs, make_tree
+    model, loci, call = case
+    tree = make_tree("((a:0.1,b:0.25)x:0.3,c:0.2,d:0.05);")
+    rows1 = {"a": "ACGTRAACGTAGCTAAGC", "b": "ACGTAAYCGTAGTTAAGC", "c": "ATGTGACCGTCGCTAAGA", "d": "CCGTAAGCG-AGCTNAGC"}
+    rows2 = {"a": "TTGACCAGTACA", "b": "TTGACCAGAACA", "c": "TCGACTAGTACA", "d": "TTGCCCAGTACG"}
+    kw = {}
+    if model == "HKY85+bins":
+        sm = get_model("HKY85", ordered_param="rate", distribution="gamma")
+        kw["bins"] = 2
+    else:
+        sm = get_model(model)
+    try:
+        if loci == 1:
+            lf = sm.make_likelihood_function(tree, **kw)
+            lf.set_alignment(make_aligned_seqs(rows1, moltype="dna"))
+        else:
+            lf = sm.make_likelihood_function(tree, loci=["l1", "l2"], **kw)
+            lf.set_alignment([make_aligned_seqs(rows1, moltype="dna"), make_aligned_seqs(rows2, moltype="dna")])
+        for i, p_ in enumerate(sorted(sm.get_param_list())):
+            lf.set_param_rule(p_, init=(2.5, 0.6, 1.7, 3.1)[i % 4])
+        before = float(lf.lnL)
+    except Exception:
+        return ("skip",)
+    outcome = "returns"
+    try:
+        fn = getattr(lf, call)
+        if call in ("get_rate_matrix_for_edge", "get_psub_for_edge"):
+            fn("a")
+        elif call in ("get_aic", "get_bic"):
+            fn()
+        else:
+            fn()
+    except AttributeError:
+        return ("skip",)
+    except Exception as e:
+        outcome = f"raises-{type(e).__name__}"
+    try:
+        after = float(lf.lnL)
+    except Exception as e:
+        return ("fail", f"readonly/{call}/lnL-raises-afterwards/{outcome}/loci={loci}", f"{case}: lnL was {before!r}; after {call}() ({outcome}) "
+                f"reading lnL raises {type(e).__name__}: {str(e)[:160]}")
+    if abs(after - before) > 1e-9 * max(1.0, abs(before)):
+        return ("fail", f"readonly/{call}/lnL-changed/{outcome}/loci={loci}", f"{case}: lnL was {before!r}; after {call}() ({outcome}) it is {after!r}")
+    return ("ok", True)
+
+
 BOUNDED = {
+    "readonly_calls": {
+        "gen": gen_readonly, "contract": contract_readonly,
+        "functions": ["LikelihoodFunction.reconstruct_ancestral_seqs / likely_ancestral_seqs / get_full_length_likelihoods / "
+                      "get_statistics / get_param_rules / to_rich_dict / get_all_psubs / ... (19 read-only methods)"],
+        "bound": "HKY85, GN, HKY85 with 2 gamma rate classes x 1 or 2 loci x 19 read-only methods, each called once without "
+                 "arguments (edge 'a' where an edge is required)",
+        "rule": "whether the call returns or raises, the log-likelihood reported afterwards equals the one reported before "
+                "(relative 1e-9)",
+        "shards": 8,
+    },
     "nucleotide": {
         "gen": gen_nucleotide, "contract": contract_nucleotide,
         "functions": ["LikelihoodFunction.get_log_likelihood", "LikelihoodFunction.get_full_length_likelihoods",
